@@ -164,3 +164,15 @@ Theorem C09_materialize_reshape_shipped_refuted : exists o dims rho cx co,
   reshape_out true cx dims <> Some co.
 Proof. exact materialize_old_refuted. Qed.
 Print Assumptions C09_materialize_reshape_shipped_refuted.
+
+(* Flatten2Reshape: the emitted Reshape(x, [0,-1]) is rejected for an empty batch (witness x:[0,4]); finding, no repair *)
+Theorem C09_flatten_to_reshape_refuted : exists cx,
+  Forall (fun n => 0 <= n) cx /\ reshape_out false cx [0; -1] <> Some (flatten_out cx 1).
+Proof. exact flatten_to_reshape_refuted. Qed.
+Print Assumptions C09_flatten_to_reshape_refuted.
+
+(* collapse_slice2: a step-1 window of the same length as the axis is the whole axis (with C09_iu_same_shape_sound) *)
+Theorem C09_collapse_slice_window : forall (l : list Z) k n,
+  List.length (firstn n (skipn k l)) = List.length l -> firstn n (skipn k l) = l.
+Proof. exact (@window_full Z). Qed.
+Print Assumptions C09_collapse_slice_window.
